@@ -831,6 +831,119 @@ Corollary linked_mutex l o wk s a b n m :
   a = b /\ l_owner (get_lock o l) = Some a /\ l_depth (get_lock o l) = Z.of_nat n /\ 1 <= n.
 Proof. intros L. destruct (linked_sound _ _ _ _ L) as [K R]. eapply machine_mutex; eauto. Qed.
 
+(** ** sections 4 and 5 composed: one statement per atomic section about the MACHINE.
+    Running the lock code of Lib.v from a machine state whose object state is related to a protocol state
+    [s] (with [LPP.inv s], e.g. [s] reachable) performs a protocol transition: the object state at the end
+    of the section is related to [LP.step s label]. *)
+Lemma link_set_act m a st l wk s : link (ob m) l wk s -> link (ob (set_act m a st)) l wk s.
+Proof. intros K. eapply link_frame; eauto. Qed.
+
+Theorem machine_request_immediate k cur m l c outer wk s :
+  link (ob m) l wk s -> LPP.inv s -> LP.ph s cur <> LP.Waiting ->
+  (l_owner (get_lock (ob m) l) = None \/ l_owner (get_lock (ob m) l) = Some cur) ->
+  exists s' m' j, LP.step s (LP.Request cur) = Some s' /\ link (ob m') l wk s' /\
+    exec (j + k) cur m (MRun (lock_enter l)) c outer = exec k cur m' (MRet VU) c outer.
+Proof.
+  intros K I P O.
+  assert (F : is_scheduled (ob m) (length (sigs (ob m))) = false \/ True) by auto.
+  assert (Hs : forall Fr, exists s', LP.step s (LP.Request cur) = Some s' /\
+                 link (sec_enter (ob m) l cur) l (wk_enter (ob m) l cur wk) s').
+  { intros Fr. apply sim_request; auto. }
+  assert (Ew : wk_enter (ob m) l cur wk = wk).
+  { unfold wk_enter. destruct O as [O|O]; rewrite O; auto. now rewrite Nat.eqb_refl. }
+  (* the freshness hypothesis of [sim_request] is only used by the waiting branch *)
+  assert (Hs' : exists s', LP.step s (LP.Request cur) = Some s' /\ link (sec_enter (ob m) l cur) l wk s').
+  { unfold link in *. unfold sec_enter. pose proof (LPP.iC _ I) as C. unfold LPP.inv_owner in C.
+    cbn [LP.step]. rewrite (k_owner _ _ _ _ _ _ _ K) in O |- *.
+    destruct O as [O|O]; rewrite O in *.
+    - destruct C as (C1 & C2 & C3 & C4).
+      destruct (LP.ph s cur) as [| |n] eqn:Pc; [|congruence|exfalso; eapply C4; eauto].
+      eexists. split; [reflexivity|]. cbn. apply linkf_bump. eapply linkf_take. exact K.
+    - destruct C as [C1 C2]. destruct (LP.ph s cur) as [| |n] eqn:Pc; [contradiction|congruence|].
+      rewrite !Nat.eqb_refl. eexists. split; [reflexivity|]. cbn. apply linkf_bump. exact K. }
+  destruct Hs' as (s' & St & K'). exists s', (with_ob m (sec_enter (ob m) l cur) []).
+  destruct O as [O|O].
+  - exists 7. repeat split; auto. apply lock_enter_free_runs. exact O.
+  - exists 6. repeat split; auto. apply lock_enter_again_runs. exact O.
+Qed.
+
+Theorem machine_request_waits k a m l b st wk s :
+  link (ob m) l wk s -> LPP.inv s -> LP.ph s a <> LP.Waiting ->
+  is_scheduled (ob m) (length (sigs (ob m))) = false ->
+  l_owner (get_lock (ob m) l) = Some b -> a <> b ->
+  let w := length (sigs (ob m)) in
+  let m' := exec (17 + k) a m (MRun (lock_enter l)) {| c_aid := a; c_stack := st |} [] in
+  exists s', LP.step s (LP.Request a) = Some s' /\ LP.ph s' a = LP.Waiting /\
+             link (ob m') l (LP.upd wk a w) s' /\
+             m' = set_act (with_ob m (sec_enter (ob m) l a) []) a
+                          (ASusp (lock_wait_frames l (lnotif (ob m) l) a (LP.upd wk a w a) ++ st)).
+Proof.
+  intros K I P Fr O N w m'.
+  destruct (sim_request _ _ _ _ a K I P Fr) as (s' & St & K').
+  assert (Ew : wk_enter (ob m) l a wk = LP.upd wk a w).
+  { unfold wk_enter. rewrite O. apply Nat.eqb_neq in N. now rewrite N. }
+  rewrite Ew in K'.
+  assert (Em : m' = set_act (with_ob m (sec_enter (ob m) l a) []) a
+                            (ASusp (lock_wait_frames l (lnotif (ob m) l) a w ++ st))).
+  { apply lock_enter_wait_sleeps with (b := b); auto. apply K. }
+  exists s'. repeat split; auto.
+  - pose proof (LPP.available_predicts_request s a s') as A. cbn [LP.step] in St, A.
+    unfold link in K. rewrite <- (k_owner _ _ _ _ _ _ _ K), O in St.
+    destruct (LP.ph s a) eqn:Pa; try discriminate.
+    + rewrite (proj2 (Nat.eqb_neq b a)) in St by auto. injection St as <-. cbn. apply LPP.upd_same.
+    + rewrite (proj2 (Nat.eqb_neq b a)) in St by auto. discriminate.
+  - rewrite Em. apply link_set_act. exact K'.
+  - rewrite LPP.upd_same. exact Em.
+Qed.
+
+Theorem machine_wake k cur m l a c st outer wk s :
+  link (ob m) l wk s -> LPP.inv s -> LP.ph s a = LP.Waiting -> In a (LP.woken s) ->
+  exists s' m', LP.step s (LP.DeliverWake a) = Some s' /\ link (ob m') l wk s' /\
+    exec (13 + k) cur m (MThrow (ESig (wk a)))
+         {| c_aid := c; c_stack := lock_wait_frames l (lnotif (ob m) l) a (wk a) ++ st |} outer
+    = exec k cur m' (MRet VU) {| c_aid := c; c_stack := st |} outer.
+Proof.
+  intros K I P W. destruct (sim_wake _ _ _ _ a K I P W) as (s' & St & K').
+  exists s'. eexists. split; [exact St|]. split; [| apply lock_wait_woken; [reflexivity | apply K]].
+  exact K'.
+Qed.
+
+Theorem machine_foreign k cur m l a e c st outer wk s :
+  link (ob m) l wk s -> LPP.inv s -> LP.ph s a = LP.Waiting -> is_sig e (wk a) = false ->
+  exists s' m', LP.step s (LP.DeliverForeign a) = Some s' /\ link (ob m') l wk s' /\
+    exec (16 + k) cur m (MThrow e)
+         {| c_aid := c; c_stack := lock_wait_frames l (lnotif (ob m) l) a (wk a) ++ st |} outer
+    = exec k cur m' (MThrow e) {| c_aid := c; c_stack := st |} outer.
+Proof.
+  intros K I P He. destruct (sim_foreign _ _ _ _ a K I P) as (s' & St & K').
+  exists s'. eexists. split; [exact St|]. split; [| apply lock_wait_foreign; [reflexivity | apply K | exact He]].
+  exact K'.
+Qed.
+
+(** [__aexit__] run by the holder [a] while the loop runs [cur]: if the assertion holds (always when
+    [cur = a], and for [GeneratorExit]) the protocol exits; otherwise (D14) AssertionError is raised and
+    neither the objects nor the protocol state move: the lock stays with [a], whose block is gone *)
+Theorem machine_exit k cur m l exc c outer wk s a n :
+  link (ob m) l wk s -> LPP.inv s -> LP.ph s a = LP.Inside (S n) ->
+  (exit_guard (ob m) l exc cur = true ->
+   exists s' m', LP.step s (LP.Exit a) = Some s' /\ link (ob m') l wk s' /\
+     exec (2 + k) cur m (MRun (lock_exit l exc)) c outer = exec k cur m' (MRet VU) c outer) /\
+  (exit_guard (ob m) l exc cur = false ->
+   cur <> a /\ exc <> Some EGenExit /\
+   exec (2 + k) cur m (MRun (lock_exit l exc)) c outer = exec (1 + k) cur m (MThrow EAssertion) c outer) /\
+  (cur = a -> exit_guard (ob m) l exc cur = true).
+Proof.
+  intros K I P. destruct (LPP.inside_owner _ I _ _ P) as (O & _).
+  split; [|split].
+  - intros G. destruct (sim_exit _ _ _ _ a n K I P) as (s' & St & K').
+    exists s'. eexists. split; [exact St|]. split; [| rewrite lock_exit_runs, G; reflexivity]. exact K'.
+  - intros G. pose proof G as G'. apply exit_guard_fails_iff in G' as [G1 G2].
+    repeat split; auto.
+    + intros ->. apply G2. unfold link in K. rewrite (k_owner _ _ _ _ _ _ _ K). exact O.
+    + rewrite lock_exit_runs, G. reflexivity.
+  - intros ->. eapply exit_guard_owner; eauto.
+Qed.
+
 (** ** the hypotheses are satisfiable: a concrete history on a freshly allocated lock.
     activity 0 enters, activity 1 requests (parks with wake-up 0), 0 leaves (hand-off: 1 designated, its
     wake-up scheduled), 1 is resumed by its wake-up and is inside. *)
@@ -888,6 +1001,11 @@ Print Assumptions lock_enter_again_runs.
 Print Assumptions lock_enter_wait_sleeps.
 Print Assumptions lock_wait_woken.
 Print Assumptions lock_wait_foreign.
+Print Assumptions machine_request_immediate.
+Print Assumptions machine_request_waits.
+Print Assumptions machine_wake.
+Print Assumptions machine_foreign.
+Print Assumptions machine_exit.
 Print Assumptions linked_sound.
 Print Assumptions linked_progress.
 Print Assumptions machine_free_iff_idle.
